@@ -120,8 +120,16 @@ class CommonSubexpressionEliminationPass(ir.passes.InPlacePass):
                 # If it is, this node has an existing node with the same
                 # operator, number of outputs, inputs, and attributes.
                 # We replace the node with the existing node.
-                modified = True
                 existing_node = existing_node_info_to_the_node[node_info]
+                if any(
+                    kept.name == "" and (removed.uses() or removed.is_graph_output())
+                    for removed, kept in zip(node.outputs, existing_node.outputs)
+                ):
+                    # The existing node omits (empty name) an optional output that is
+                    # still consumed on this node: it cannot stand in for this node.
+                    logger.debug("Skipping %s: %s omits an output in use", node, existing_node)
+                    continue
+                modified = True
                 _remove_node_and_replace_values(
                     graph,
                     remove_node=node,
